@@ -98,6 +98,16 @@ def cases(seed, tier):
     for name, code in sysm:
         if "/lit_recv_pad_end" in name or "/lit_recv_replace_all" in name:
             out.append({"name": "sys/cfg5x/" + name, "code": code, "config": SUBSET_CFGS[-1]})
+    # many distinct operations in ONE file (the debug breakdown has one entry per tag: 8, 16, 17, 33, 65 tags)
+    for n in (6, 14, 15, 31, 63, 120):
+        names = ["meth%d" % k for k in range(n)]
+        cfg = {"localVarPrefix": "p", "telemetryVerbosity": "DEBUG", "csiMethods": [
+            {"src": "plusOperator", "operator": True}, {"src": "tplOperator", "operator": True}] +
+            [{"src": m, "dst": "h_" + m} if k % 3 else {"src": m} for k, m in enumerate(names)]}
+        body = " ".join("r = a.%s(b);" % m for m in names) + " r = a + b; r += `t${a}`; " + " ".join("r = b.%s();" % m for m in names[::2])
+        out.append({"name": "sys/manytags/%d" % n, "code": "function m(a, b) { let r; %s return r; }" % body, "config": cfg})
+        out.append({"name": "sys/manytags-info/%d" % n, "code": "function m(a, b) { let r; %s return r; }" % body,
+                    "config": dict(cfg, telemetryVerbosity="INFORMATION")})
     n_random = 1500 if tier == "quick" else 30000
     for i in range(n_random):
         reserved = "__datadog_p_%d" % rng.randint(0, 3) if rng.random() < 0.06 else None
